@@ -1,8 +1,278 @@
-import EvoModel.Lemmas.SO3
+/-
+C14 — plane projection (`PosePath3D.project`, `euler_from_matrix(·, "sxyz")`).
+Property theorems about `Model/Project.lean`, for every ordered field `K` (ℚ: what the driver
+runs; ℝ: every heading, last section).  `(c, s)` is the normalised Euler direction, a certified
+input of the model (`Dir.IsUnit`), proved to be unique (`dir_unit_unique`).
+
+The property is **false** of the code for the XZ plane and headings beyond ±90°
+(`project_xz_counterexample`, finding F1): `project_xz_fixes_planar_partial` covers `cos ≥ 0` only.
+-/
+import EvoModel.Lemmas.Lie
 import EvoModel.Model.Project
 namespace Evo.C14
 open Evo Evo.Project
 
-theorem project_twice_refused_stub : history ⟨[0], [Pose.one], false⟩ [.xy, .xz] = [true, false] := by decide +kernel
+set_option linter.unusedSectionVars false
+
+section ordered
+variable {K : Type} [Field K] [LinearOrder K] [IsStrictOrderedRing K]
+
+/-! ### the certified direction is unique -/
+
+/-- `Dir.IsUnit` determines `(c, s)`: the model leaves no freedom in the projected rotation -/
+theorem dir_unit_unique (d : Dir K) (hx : 0 ≤ d.xsq) {c s c' s' : K}
+    (h : d.IsUnit c s) (h' : d.IsUnit c' s') : c = c' ∧ s = s' := by
+  obtain ⟨h1, h2, h3, h4, h5⟩ := h
+  obtain ⟨h1', h2', h3', h4', h5'⟩ := h'
+  by_cases hN : d.xsq + d.y * d.y = 0
+  · obtain ⟨rfl, rfl⟩ := h5 hN
+    obtain ⟨rfl, rfl⟩ := h5' hN
+    exact ⟨rfl, rfl⟩
+  · have hNpos : 0 < d.xsq + d.y * d.y :=
+      lt_of_le_of_ne (by nlinarith [mul_self_nonneg d.y]) (Ne.symm hN)
+    have hcc : c * c = c' * c' := by
+      have : (c * c - c' * c') * (d.xsq + d.y * d.y) = 0 := by linear_combination h2 - h2'
+      rcases mul_eq_zero.mp this with h | h
+      · linear_combination h
+      · exact absurd h hN
+    have hc : c = c' := by
+      have hf : (c - c') * (c + c') = 0 := by linear_combination hcc
+      rcases mul_eq_zero.mp hf with h | h
+      · linear_combination h
+      · by_cases hn : d.xneg = true
+        · simp only [hn, if_true] at h3 h3'
+          have : c = 0 := by linarith
+          have : c' = 0 := by linarith
+          simp [*]
+        · simp only [hn] at h3 h3'
+          have h3a : 0 ≤ c := by simpa using h3
+          have h3b : 0 ≤ c' := by simpa using h3'
+          have : c = 0 := by linarith
+          have : c' = 0 := by linarith
+          simp [*]
+    refine ⟨hc, ?_⟩
+    have hss : s * s = s' * s' := by subst hc; linear_combination h1 - h1'
+    have hf : (s - s') * (s + s') = 0 := by linear_combination hss
+    rcases mul_eq_zero.mp hf with h | h
+    · linear_combination h
+    · -- s' = −s, both with the sign of y: s·y = 0
+      have hs' : s' = -s := by linear_combination h
+      rw [hs'] at h4'
+      have hsy : s * d.y = 0 := by nlinarith
+      rcases mul_eq_zero.mp hsy with h0 | h0
+      · rw [hs', h0]; simp
+      · -- y = 0: c² = 1, s = 0
+        have hx' : c * c * d.xsq = d.xsq := by rw [h0] at h2; linear_combination h2
+        have hxs : d.xsq ≠ 0 := by intro e; apply hN; rw [e, h0]; ring
+        have hc1 : c * c = 1 := by
+          have : (c * c - 1) * d.xsq = 0 := by linear_combination hx'
+          rcases mul_eq_zero.mp this with h | h
+          · linear_combination h
+          · exact absurd h hxs
+        have hs0 : s * s = 0 := by linear_combination h1 - hc1
+        have : s = 0 := mul_self_eq_zero.mp hs0
+        rw [hs', this]; simp
+
+/-- a point of the unit circle is the unit vector of the direction it spans -/
+theorem isUnit_of_circle (c0 s0 : K) (g : Bool) (h : c0 * c0 + s0 * s0 = 1) :
+    (⟨c0 * c0, decide (c0 < 0), s0, g⟩ : Dir K).IsUnit c0 s0 := by
+  refine ⟨h, ?_, ?_, mul_self_nonneg s0, ?_⟩
+  · show c0 * c0 * (c0 * c0 + s0 * s0) = c0 * c0
+    rw [h, mul_one]
+  · by_cases hc : c0 < 0
+    · simp only [hc, decide_true, if_true]; exact hc.le
+    · simp only [hc, decide_false]; simpa using hc
+  · intro h0
+    have : c0 * c0 + s0 * s0 = 0 := h0
+    rw [h] at this
+    exact absurd this one_ne_zero
+
+/-! ### positions -/
+
+/-- every position has a zero out-of-plane coordinate -/
+theorem project_out_of_plane_zero (pl : Plane) (p : Pose K) (c s : K) :
+    normalCoord pl (projectPose pl p c s).t = 0 := by
+  cases pl <;> rfl
+
+/-- the in-plane coordinates are unchanged -/
+theorem project_in_plane_kept (pl : Plane) (p : Pose K) (c s : K) :
+    inPlane pl (projectPose pl p c s).t = inPlane pl p.t := by
+  cases pl <;> rfl
+
+/-! ### orientations -/
+
+/-- every new orientation is a pure rotation about the plane normal: it fixes the normal (from
+both sides), is a proper rotation, and is the Rodrigues matrix `exp(φ·n)` of the unit normal -/
+theorem project_pure_rotation_about_normal (pl : Plane) (c s : K) (h : c * c + s * s = 1) :
+    (rotAbout pl c s).mulVec pl.axis = pl.axis ∧
+    (rotAbout pl c s).transpose.mulVec pl.axis = pl.axis ∧
+    IsRot (rotAbout pl c s) ∧
+    rotAbout pl c s = rodrigues pl.axis s (1 - c) := by
+  refine ⟨?_, ?_, ⟨?_, ?_⟩, ?_⟩
+  · cases pl <;> ext <;> simp [rotAbout, Plane.axis, M3.mulVec]
+  · cases pl <;> ext <;> simp [rotAbout, Plane.axis, M3.mulVec, M3.transpose]
+  · unfold IsOrtho
+    cases pl <;> ext <;> simp only [rotAbout, M3.mul, M3.transpose, M3.one] <;>
+      first | linear_combination h | ring
+  · cases pl <;> simp only [rotAbout, M3.det] <;> linear_combination h
+  · cases pl <;> ext <;> simp only [rotAbout, Plane.axis, rodrigues, M3.add, M3.smul, M3.mul, M3.hat, M3.one] <;> ring
+
+/-- every projected pose is a valid rigid-body pose (orthonormal block, determinant 1; the bottom
+row `0 0 0 1` is structural in `Pose`) -/
+theorem project_rigid (epsSq : K) (pl : Plane) (p : Pose K) (c s : K)
+    (h : (dirOf epsSq pl p.rot).IsUnit c s) :
+    IsRigid (projectPose pl p c s) ∧ (projectPose pl p c s).rot.det = 1 := by
+  have hr := (project_pure_rotation_about_normal pl c s h.1).2.2.1
+  exact ⟨hr.1, hr.2⟩
+
+/-! ### count, order, timestamps, one-shot flag -/
+
+theorem projectPoses_spec (epsSq : K) (pl : Plane) :
+    ∀ (ps : List (Pose K)) (ang : List (K × K)), AnglesOk epsSq pl ps ang →
+      (projectPoses pl ps ang).length = ps.length ∧
+      ∀ (i : Nat) (p : Pose K), ps[i]? = some p →
+        ∃ cs, ang[i]? = some cs ∧ (dirOf epsSq pl p.rot).IsUnit cs.1 cs.2 ∧
+          (projectPoses pl ps ang)[i]? = some (projectPose pl p cs.1 cs.2)
+  | [], [], _ => by simp [projectPoses]
+  | [], _ :: _, h => by simp [AnglesOk] at h
+  | _ :: _, [], h => by simp [AnglesOk] at h
+  | p :: ps, cs :: css, h => by
+      obtain ⟨h0, hrest⟩ := h
+      obtain ⟨hl, hi⟩ := projectPoses_spec epsSq pl ps css hrest
+      refine ⟨by simp [projectPoses, hl], ?_⟩
+      intro i q hq
+      cases i with
+      | zero =>
+          simp only [List.getElem?_cons_zero, Option.some.injEq] at hq
+          subst hq
+          exact ⟨cs, by simp, h0, by simp [projectPoses]⟩
+      | succ j =>
+          simp only [List.getElem?_cons_succ] at hq
+          obtain ⟨cs', e1, e2, e3⟩ := hi j q hq
+          exact ⟨cs', by simpa using e1, e2, by simpa [projectPoses] using e3⟩
+
+/-- count, order and timestamps are unchanged: the result has the same stamps, as many poses, and
+its `i`-th pose is the projection of the `i`-th input pose -/
+theorem project_count_order_stamps (epsSq : K) (pl : Plane) (tr tr' : Traj K) (ang : List (K × K))
+    (hang : AnglesOk epsSq pl tr.poses ang) (h : project pl tr ang = some tr') :
+    tr'.stamps = tr.stamps ∧ tr'.poses.length = tr.poses.length ∧
+    ∀ (i : Nat) (p : Pose K), tr.poses[i]? = some p →
+      ∃ cs, ang[i]? = some cs ∧ (dirOf epsSq pl p.rot).IsUnit cs.1 cs.2 ∧
+        tr'.poses[i]? = some (projectPose pl p cs.1 cs.2) := by
+  unfold project at h
+  split at h
+  · exact absurd h (by simp)
+  · have e := Option.some.inj h
+    subst e
+    obtain ⟨hl, hi⟩ := projectPoses_spec epsSq pl tr.poses ang hang
+    exact ⟨rfl, hl, hi⟩
+
+/-- a first projection is carried out, a second projection of the same object is refused
+(whatever the plane), and the refusal leaves the object as it is (`none`: nothing is returned) -/
+theorem project_twice_refused (pl pl' : Plane) (tr : Traj K) (ang ang' : List (K × K))
+    (h0 : tr.projected = false) :
+    ∃ tr', project pl tr ang = some tr' ∧ tr'.projected = true ∧ project pl' tr' ang' = none := by
+  refine ⟨⟨tr.stamps, projectPoses pl tr.poses ang, true⟩, ?_, rfl, ?_⟩
+  · unfold project; simp [h0]
+  · unfold project; simp
+
+/-! ### planar poses are fixed (true projection) — XY, YZ: every heading; XZ: only `cos ≥ 0` -/
+
+/-- **XY**: a pose in the plane (`z = 0`, rotation about z by any heading `(c₀, s₀)` on the unit
+circle) is left unchanged -/
+theorem project_xy_fixes_planar (epsSq c0 s0 x y c s : K) (heps : epsSq < 1)
+    (h0 : c0 * c0 + s0 * s0 = 1)
+    (h : (dirOf epsSq .xy (rotAbout .xy c0 s0)).IsUnit c s) :
+    projectPose .xy ⟨rotAbout .xy c0 s0, ⟨x, y, 0⟩⟩ c s = ⟨rotAbout .xy c0 s0, ⟨x, y, 0⟩⟩ := by
+  have hd : dirOf epsSq .xy (rotAbout .xy c0 s0) = ⟨c0 * c0, decide (c0 < 0), s0, false⟩ := by
+    simp [dirOf, rotAbout, h0, heps]
+    rw [Bool.eq_iff_iff]; simp only [decide_eq_true_eq]; exact decide_eq_true_iff
+  rw [hd] at h
+  obtain ⟨rfl, rfl⟩ := dir_unit_unique _ (mul_self_nonneg c0) h (isUnit_of_circle c0 s0 false h0)
+  rfl
+
+/-- **YZ**: likewise for every heading -/
+theorem project_yz_fixes_planar (epsSq c0 s0 y z c s : K) (heps : epsSq < 1)
+    (h0 : c0 * c0 + s0 * s0 = 1)
+    (h : (dirOf epsSq .yz (rotAbout .yz c0 s0)).IsUnit c s) :
+    projectPose .yz ⟨rotAbout .yz c0 s0, ⟨0, y, z⟩⟩ c s = ⟨rotAbout .yz c0 s0, ⟨0, y, z⟩⟩ := by
+  have hd : dirOf epsSq .yz (rotAbout .yz c0 s0) = ⟨c0 * c0, decide (c0 < 0), s0, false⟩ := by
+    simp [dirOf, rotAbout, heps]
+    rw [Bool.eq_iff_iff]; simp only [decide_eq_true_eq]; exact decide_eq_true_iff
+  rw [hd] at h
+  obtain ⟨rfl, rfl⟩ := dir_unit_unique _ (mul_self_nonneg c0) h (isUnit_of_circle c0 s0 false h0)
+  rfl
+
+/-- what `project(XZ)` does to a planar pose with heading `(c₀, s₀)`: the new heading is
+`(|c₀|, s₀)` — the middle `sxyz` Euler angle is confined to `[−π/2, π/2]` -/
+theorem project_xz_planar_heading (epsSq c0 s0 c s : K) (h0 : c0 * c0 + s0 * s0 = 1)
+    (h : (dirOf epsSq .xz (rotAbout .xz c0 s0)).IsUnit c s) : c = |c0| ∧ s = s0 := by
+  have hd : dirOf epsSq .xz (rotAbout .xz c0 s0)
+      = ⟨|c0| * |c0|, decide (|c0| < 0), s0, !decide (epsSq < c0 * c0 + 0 * 0)⟩ := by
+    simp only [dirOf, rotAbout]
+    have h1 : c0 * c0 + 0 * 0 = |c0| * |c0| := by rw [abs_mul_abs_self]; ring
+    have h2 : decide (|c0| < 0) = false := by simp
+    rw [h2, ← h1]; simp
+  rw [hd] at h
+  have h0' : |c0| * |c0| + s0 * s0 = 1 := by rw [abs_mul_abs_self]; exact h0
+  exact dir_unit_unique _ (mul_self_nonneg |c0|) h (isUnit_of_circle |c0| s0 _ h0')
+
+/-- **XZ, partial**: a planar pose whose heading has `cos ≥ 0` (`|θ| ≤ π/2`) is left unchanged.
+Missing: headings beyond ±90°, where the statement is false (`project_xz_counterexample`). -/
+theorem project_xz_fixes_planar_partial (epsSq c0 s0 x z c s : K)
+    (h0 : c0 * c0 + s0 * s0 = 1) (hc : 0 ≤ c0)
+    (h : (dirOf epsSq .xz (rotAbout .xz c0 s0)).IsUnit c s) :
+    projectPose .xz ⟨rotAbout .xz c0 s0, ⟨x, 0, z⟩⟩ c s = ⟨rotAbout .xz c0 s0, ⟨x, 0, z⟩⟩ := by
+  obtain ⟨rfl, rfl⟩ := project_xz_planar_heading epsSq c0 s0 c s h0 h
+  rw [abs_of_nonneg hc]; rfl
+
+/-- beyond ±90° the planar pose is **changed**: its heading `(c₀, s₀)`, `c₀ < 0`, becomes `(−c₀, s₀)` -/
+theorem project_xz_changes_beyond_90 (epsSq c0 s0 x z c s : K)
+    (h0 : c0 * c0 + s0 * s0 = 1) (hc : c0 < 0)
+    (h : (dirOf epsSq .xz (rotAbout .xz c0 s0)).IsUnit c s) :
+    projectPose .xz ⟨rotAbout .xz c0 s0, ⟨x, 0, z⟩⟩ c s = ⟨rotAbout .xz (-c0) s0, ⟨x, 0, z⟩⟩ ∧
+    projectPose .xz ⟨rotAbout .xz c0 s0, ⟨x, 0, z⟩⟩ c s ≠ ⟨rotAbout .xz c0 s0, ⟨x, 0, z⟩⟩ := by
+  obtain ⟨rfl, rfl⟩ := project_xz_planar_heading epsSq c0 s0 c s h0 h
+  rw [abs_of_neg hc]
+  refine ⟨rfl, ?_⟩
+  intro e
+  have := congrArg (fun q : Pose K => q.rot.a00) e
+  simp only [projectPose, rotAbout] at this
+  linarith
+
+end ordered
+
+/-! ### finding F1, kernel-checked on a rational planar pose -/
+
+/-- the pose at `(1, 0, 3)` in the XZ plane with heading `cos = −3/5`, `sin = 4/5` (≈ 126.87°) -/
+def f1Pose : Pose ℚ := ⟨rotAbout .xz (-3/5) (4/5), ⟨1, 0, 3⟩⟩
+
+/-- **F1**: `project(XZ)` is not the identity on the planar pose `f1Pose`: the (unique) certified
+direction is `(3/5, 4/5)` (≈ 53.13°), so the result differs from the input. -/
+theorem project_xz_counterexample :
+    (dirOf epsSqRat .xz f1Pose.rot).IsUnit (3/5) (4/5) ∧
+    (∀ c s : ℚ, (dirOf epsSqRat .xz f1Pose.rot).IsUnit c s →
+      projectPose .xz f1Pose c s = ⟨rotAbout .xz (3/5) (4/5), ⟨1, 0, 3⟩⟩ ∧ projectPose .xz f1Pose c s ≠ f1Pose) := by
+  have hu : (dirOf epsSqRat .xz f1Pose.rot).IsUnit (3/5) (4/5) := by decide +kernel
+  refine ⟨hu, ?_⟩
+  intro c s h
+  have hx : 0 ≤ (dirOf epsSqRat .xz f1Pose.rot).xsq := by decide +kernel
+  obtain ⟨rfl, rfl⟩ := dir_unit_unique _ hx h hu
+  constructor <;> decide +kernel
+
+/-! ### non-vacuity -/
+
+example : ((3 : ℚ) / 5) * (3 / 5) + (4 / 5) * (4 / 5) = 1 := by norm_num
+example : (dirOf epsSqRat .xy (rotAbout .xy (-3/5) (4/5))).IsUnit (-3/5) (4/5) := by decide +kernel
+example : (dirOf epsSqRat .yz (rotAbout .yz (-3/5) (-4/5))).IsUnit (-3/5) (-4/5) := by decide +kernel
+example : (dirOf epsSqRat .xz (rotAbout .xz (3/5) (-4/5))).IsUnit (3/5) (-4/5) := by decide +kernel
+example : epsSqRat < 1 := by decide +kernel
+-- a gimbal-lock attitude (pitch −90°): XY projects to heading 0, YZ uses the (M₁₁, −M₁₂) direction
+example : (dirOf epsSqRat .xy (⟨0, 0, 1, 0, 1, 0, -1, 0, 0⟩ : M3 ℚ)) = ⟨1, false, 0, true⟩ := by decide +kernel
+example : (dirOf epsSqRat .yz (⟨0, -4/5, 3/5, 0, 3/5, 4/5, -1, 0, 0⟩ : M3 ℚ)) = ⟨9/25, false, -4/5, true⟩ := by
+  decide +kernel
+example : AnglesOk epsSqRat .xz [f1Pose, Pose.one] [(3/5, 4/5), (1, 0)] := by
+  refine ⟨by decide +kernel, by decide +kernel, trivial⟩
+example : history ⟨[0], [Pose.one], false⟩ [.xy, .xz, .xy] = [true, false, false] := by decide +kernel
 
 end Evo.C14
